@@ -29,7 +29,11 @@ Record wst := mkW {
   w_parkc : list nat;             (* calls parked after their fail-fast check *)
   w_parkr : list nat;             (* streams with a RecvMsg parked after its done-check *)
   w_dead : bool;                  (* the multiplexer read loop has been seen dead *)
-  w_msgs : list (nat * Z) }.      (* (stream, body) of the successful RecvMsg returns, in order *)
+  w_msgs : list (nat * Z);        (* (stream, body) of the successful RecvMsg returns, in order *)
+  w_pre : list env;               (* envelopes delivered before the read failure was injected: the transport hands all of
+                                     them to the read loop before it reports the failure *)
+  w_failed : bool;                (* the read failure has been injected *)
+  w_gone : list nat }.            (* calls whose context the environment ended, or whose SendMsg / CloseSend failed *)
 
 Definition memn (x : nat) (l : list nat) : bool := existsb (Nat.eqb x) l.
 Definition remn (x : nat) (l : list nat) : list nat := filter (fun y => negb (Nat.eqb x y)) l.
@@ -83,19 +87,42 @@ Definition step_w (w : wst) (a : act) (o : obs) : wst * list nat :=
   let w1 := match a with
             | ANewUnary _ park | ANewStream park =>
                 mkW (S n) (match first_write (o_events o) with Some i => (n, i) :: w_ids w | None => w_ids w end)
-                    (w_del w) (if park then n :: w_parkc w else w_parkc w) (w_parkr w) (w_dead w) (w_msgs w)
+                    (w_del w) (if park then n :: w_parkc w else w_parkc w) (w_parkr w) (w_dead w) (w_msgs w) (w_pre w) (w_failed w) (w_gone w)
             | ARelease c =>
                 mkW n (match lookup c (w_ids w), first_write (o_events o) with None, Some i => (c, i) :: w_ids w | _, _ => w_ids w end)
-                    (w_del w) (remn c (w_parkc w)) (w_parkr w) (w_dead w) (w_msgs w)
-            | ARecv c true => mkW n (w_ids w) (w_del w) (w_parkc w) (c :: w_parkr w) (w_dead w) (w_msgs w)
-            | AReleaseRecv c => mkW n (w_ids w) (w_del w) (w_parkc w) (remn c (w_parkr w)) (w_dead w) (w_msgs w)
+                    (w_del w) (remn c (w_parkc w)) (w_parkr w) (w_dead w) (w_msgs w) (w_pre w) (w_failed w) (w_gone w)
+            | ARecv c true => mkW n (w_ids w) (w_del w) (w_parkc w) (c :: w_parkr w) (w_dead w) (w_msgs w) (w_pre w) (w_failed w) (w_gone w)
+            | AReleaseRecv c => mkW n (w_ids w) (w_del w) (w_parkc w) (remn c (w_parkr w)) (w_dead w) (w_msgs w) (w_pre w) (w_failed w) (w_gone w)
             | ADeliver e => mkW n (w_ids w) (w_del w ++ [e]) (w_parkc w) (w_parkr w) (w_dead w) (w_msgs w)
+                                (if w_failed w then w_pre w else w_pre w ++ [e]) (w_failed w) (w_gone w)
+            | AFailRead => mkW n (w_ids w) (w_del w) (w_parkc w) (w_parkr w) (w_dead w) (w_msgs w) (w_pre w) true (w_gone w)
+            | ACancel c | AExpire c => mkW n (w_ids w) (w_del w) (w_parkc w) (w_parkr w) (w_dead w) (w_msgs w) (w_pre w) (w_failed w) (c :: w_gone w)
             | _ => w
             end in
   let was_dead := w_dead w in
   let dead := was_dead || (o_mux o =? 0) in
   let w2 := mkW (w_n w1) (w_ids w1) (w_del w1) (w_parkc w1) (w_parkr w1) dead
-                (w_msgs w1 ++ flat_map (fun ev => match ev with EvRecvRet c (RMsg b) => [(c, b)] | _ => [] end) (o_events o)) in
+                (w_msgs w1 ++ flat_map (fun ev => match ev with EvRecvRet c (RMsg b) => [(c, b)] | _ => [] end) (o_events o))
+                (w_pre w1) (w_failed w1)
+                (* a failed SendMsg tears the stream down; a failed CloseSend means its context / the connection is gone *)
+                (w_gone w1 ++ flat_map (fun ev => match ev with EvSendRet c (Some _) | EvCloseSendRet c (Some _) => [c] | _ => [] end) (o_events o)) in
+  (* reason 10 (C09: "... or the exact result, if its complete response had already been delivered"): what was delivered
+     before the read failure reaches the call before the failure does: a unary call whose reply was among it, a stream
+     that has not yet been handed all of its messages or whose final envelope was among it, must not get the
+     connection error *)
+  let pre_of (c : nat) := match lookup c (w_ids w2) with
+                          | Some i => filter (fun e => eid e =? i) (w_pre w2)
+                          | None => [] end in
+  let has_final (es : list env) := existsb (fun e => match final_of e with Some _ => true | None => false end) es
+                                   || match es with e :: _ => match ehdr e with Some MdBad => true | _ => false end | [] => false end in
+  let r_exact := flat_map (fun ev => match ev with
+                    | EvUnaryRet c (UErr EConn) | EvUnaryRet c (UErr EClosed) =>
+                        if memn c (w_gone w2) then [] else match pre_of c with [] => [] | _ :: _ => [10%nat] end
+                    | EvRecvRet c (RErr EConn) | EvRecvRet c (RErr EClosed) =>
+                        if memn c (w_gone w2) then []
+                        else if has_final (pre_of c) || (Nat.ltb (length (msgs_of c (w_msgs w2))) (length (stream_bodies (pre_of c))))
+                             then [10%nat] else []
+                    | _ => [] end) (o_events o) in
   let r_ev := flat_map (ev_reasons w2) (o_events o) in
   let r_pend := if dead
                 then flat_map (fun p => let c := Z.to_nat (fst p) in
@@ -114,7 +141,7 @@ Definition step_w (w : wst) (a : act) (o : obs) : wst * list nat :=
                       | _ => []
                       end
                  else [] in
-  (w2, r_ev ++ r_pend ++ r_after).
+  (w2, r_ev ++ r_pend ++ r_after ++ r_exact).
 
 Fixpoint walk (w : wst) (acts : list act) (observed : list obs) : wst * list nat :=
   match acts, observed with
@@ -124,7 +151,7 @@ Fixpoint walk (w : wst) (acts : list act) (observed : list obs) : wst * list nat
   | _, _ => (w, [])
   end.
 
-Definition w0 : wst := mkW 0 [] [] [] [] false [].
+Definition w0 : wst := mkW 0 [] [] [] [] false [] [] false [].
 
 Fixpoint nodupZ (l : list Z) : bool :=
   match l with [] => true | x :: t => negb (existsb (Z.eqb x) t) && nodupZ t end.
